@@ -41,14 +41,14 @@ class CallGraph:
         self.fns = {}
         for c in crates:
             for f in c.fns:
-                self.fns.setdefault(f.path, f)
+                self.fns.setdefault(F.raw_key(f.path), f)
         self.edges = {}
         for p, f in self.fns.items():
             es = set()
             for key, path, t, bi in callees(f):
                 for k in (key, path):
-                    if k in self.fns:
-                        es.add(k)
+                    if k and F.raw_key(k) in self.fns:
+                        es.add(F.raw_key(k))
                         break
             self.edges[p] = es
 
